@@ -61,6 +61,15 @@ def bboxOf (c : Ctx) : Nat → List ElRef → Elem → Except Err (Option Boundi
           pure (some (bb.translated dx dy))
         | _, _, none => pure none
       else pure b)
+    -- a `transform` on the `use` itself applies to the instance, outside the x / y shift
+    let b ← (if e.name == cs!"use" then
+        match e.getAttr cs!"transform", b with
+        | some t, some bb =>
+          match parseXfList t with
+          | some xs => pure (some (applyXfList xs bb))
+          | none => .error .parse
+        | _, _ => pure b
+      else pure b)
     match e.getAttr cs!"clip-path", b with
     | some cp, some bb =>
       match extractUrlref cp with
